@@ -60,6 +60,11 @@ def run(ctx):
     ctx.extra["family_size"] = len(hs)
     if quick:
         hs, _ = sc.slice_cases(hs, 500, ctx.seed + 3)
+        # request -> un-request -> any two further actions (re-request, remote edit, ...), each run to quiet
+        def acts(x):
+            return [t for t in x if t[0] in ("Req", "Unreq", "U", "List")]
+        hs = hs + [x for x in generate(ctx, 4, ["Q"])
+                   if acts(x)[0][0] == "Req" and acts(x)[1][0] == "Unreq" and acts(x)[1][1] == acts(x)[0][2]]
     else:
         hs4, _ = sc.slice_cases(generate(ctx, 4, ["Q", "IS", "N"]), 6000, key="smart4")
         hs += hs4
